@@ -23,7 +23,10 @@ CLONE_CLASS = [0, 0, 0, 3, 4, 4]
 
 
 def quirk_enabled():
-    """the `with_suffix('')`-on-stem-'.' finding is generated only once it is listed as known"""
+    """the `with_suffix('')`-on-stem-'.' finding is generated only once it is listed as known
+    (or when asked for with C12_QUIRK=1, to see the violation)"""
+    if os.environ.get("C12_QUIRK") == "1":
+        return True
     try:
         kf = json.load(open(os.path.join(VERIF, "known_findings.json")))
         return any(k.get("property") == "C12" and k.get("key") == "kf_with_suffix_dot_stem"
@@ -118,71 +121,107 @@ def rand_str(rng, quirk):
     r = rng.random()
     if r < 0.6:
         return rng.choice(ALPHABET)
-    if quirk and r < 0.66:
-        return rng.choice(["..a", "a/..b", "..a.b"])
+    if quirk and r < 0.75:
+        return rng.choice(["..a", "a/..b", "..a.b", "/x/..é"])
     return "".join(rng.choice(CHARS) for _ in range(rng.randint(0, 6)))
 
 
-def rand_arg(rng, quirk, allow_self, pure):
+def rand_host(rng, host, valid=0.85):
+    """a machine index: mostly one that is clone-equivalent to `host`"""
+    if rng.random() < valid:
+        return rng.choice([h for h in range(NM) if CLONE_CLASS[h] == CLONE_CLASS[host]])
+    return rng.randrange(NM)
+
+
+def rand_arg(rng, quirk, allow_self, pure, host=0):
     r = rng.random()
-    if r < 0.55:
+    if r < 0.62:
         return "s" + hx(rand_str(rng, quirk))
     segs = segs_wire([rand_str(rng, quirk) for _ in range(rng.choice([1, 1, 2, 0]))])
-    if r < 0.80:
-        h = rng.choice([0, 0, 1, 2, 3, 4, 5])
-        return f"t{h}:{segs}"
-    if r < 0.90:
+    if r < 0.86:
+        return f"t{rand_host(rng, host)}:{segs}"
+    if r < 0.93:
         return "q:" + segs
-    if r < 0.95 and allow_self:
+    if r < 0.98 and allow_self:
         return "@"
-    return "i"
+    return "i" if rng.random() < 0.5 else "s" + hx(rand_str(rng, quirk))
 
 
-def rand_int(rng):
-    i = rng.randint(-5, 5)
+def rand_int(rng, n=None):
+    """an index into a sequence of length n: mostly in range (either sign)"""
+    if n is not None and n > 0 and rng.random() < 0.8:
+        i = rng.randint(-n, n - 1)
+    else:
+        i = rng.randint(-5, 5)
     return "~%d" % -i if i < 0 else str(i)
 
 
-def rand_op(rng, quirk, pure):
-    k = rng.choice(["parent", "par", "wn", "ws", "wx", "jp", "jp", "div", "div", "rdiv", "rel", "rel"])
+GOOD_NAMES = ["x", "a.b", "..", "a b", "é.txt", ".h", "a.tar.gz", "y."]
+
+
+def rand_op(rng, quirk, pure, host=0, cur=None):
+    """one path-valued operation; `cur` (a PurePosixPath, or None when unknown) steers the choice
+    towards operations that succeed"""
+    kinds = ["parent", "par", "wn", "ws", "wx", "jp", "jp", "div", "div", "rdiv", "rel", "rel"]
+    if cur is not None and cur.name == "" and rng.random() < 0.9:
+        kinds = [k for k in kinds if k not in ("wn", "ws", "wx")]
+    k = rng.choice(kinds)
     if k == "parent":
         return k
     if k == "par":
-        return "par:" + rand_int(rng)
+        return "par:" + rand_int(rng, None if cur is None else len(cur.parents))
     if k in ("wn", "ws"):
-        return f"{k}:{hx(rand_str(rng, quirk))}"
+        nm = rng.choice(GOOD_NAMES) if rng.random() < 0.8 else rand_str(rng, quirk)
+        return f"{k}:{hx(nm)}"
     if k == "wx":
-        return "wx:" + hx(rng.choice(["", ".h", ".tar", ".", "x", ".a/b", ".é"]))
+        if quirk and rng.random() < 0.5:
+            return "wx:-"
+        return "wx:" + hx(rng.choice(["", ".h", ".tar", ".é", ".", "x", ".a/b"] if rng.random() < 0.3
+                                     else ["", ".h", ".tar", ".é"]))
+    if k == "rel" and cur is not None and rng.random() < 0.75:
+        anc = rng.choice([cur] + list(cur.parents))
+        r = rng.random()
+        if r < 0.6:
+            return "rel:s" + hx(str(anc))
+        if r < 0.9:
+            return f"rel:t{rand_host(rng, host)}:{hx(str(anc))}"
+        return "rel:q:" + hx(str(anc))
     if k in ("jp", "rel"):
-        n = rng.choice([1, 1, 1, 2, 3, 0])
-        return f"{k}:" + args_wire([rand_arg(rng, quirk, True, pure) for _ in range(n)])
+        n = rng.choice([1, 1, 1, 2, 3, 0]) if k == "jp" else rng.choice([1, 1, 1, 2])
+        return f"{k}:" + args_wire([rand_arg(rng, quirk, True, pure, host) for _ in range(n)])
     if k == "div":
-        return "div:" + rand_arg(rng, quirk, True, pure)
-    a = rand_arg(rng, quirk, False, pure)
+        return "div:" + rand_arg(rng, quirk, True, pure, host)
+    a = rand_arg(rng, quirk, False, pure, host)
     while a[0] == "t":      # `Path / Path` is the left operand's `__truediv__`, i.e. `div`
-        a = rand_arg(rng, quirk, False, pure)
+        a = rand_arg(rng, quirk, False, pure, host)
     return "rdiv:" + a
 
 
-def rand_query(rng, quirk, pure):
+def rand_query(rng, quirk, pure, host=0, cur=None):
     r = rng.random()
     if r < 0.25:
         return rng.choice(_UNARY)
     if r < 0.50:
-        return "o:" + rand_op(rng, quirk, pure)
+        return "o:" + rand_op(rng, quirk, pure, host, cur)
     if r < 0.58:
+        if cur is not None and rng.random() < 0.5:
+            anc = rng.choice([cur] + list(cur.parents))
+            return rng.choice([f"isrel:s{hx(str(anc))}", f"isrel:t{rand_host(rng, host)}:{hx(str(anc))}"])
         n = rng.choice([1, 1, 2, 0])
-        return "isrel:" + args_wire([rand_arg(rng, quirk, True, pure) for _ in range(n)])
+        return "isrel:" + args_wire([rand_arg(rng, quirk, True, pure, host) for _ in range(n)])
     if r < 0.68:
         return "match:" + hx(rng.choice(PATTERNS + ALPHABET + [rand_str(rng, quirk)]))
     if r < 0.76:
-        a = rand_arg(rng, quirk, True, pure)
+        if cur is not None and rng.random() < 0.4:      # an equal path on some machine
+            return f"cmp:t{rand_host(rng, host, 0.6)}:{hx(str(cur))}"
+        a = rand_arg(rng, quirk, True, pure, host)
         while a[0] not in "t@":
-            a = rand_arg(rng, quirk, True, pure)
+            a = rand_arg(rng, quirk, True, pure, host)
         return "cmp:" + a
     if r < 0.80:
-        return f"psl:{rng.choice(['-', rand_int(rng)])}:{rng.choice(['-', rand_int(rng)])}"
-    h = rng.randrange(NM)
+        n = None if cur is None else len(cur.parents)
+        return f"psl:{rng.choice(['-', rand_int(rng, n)])}:{rng.choice(['-', rand_int(rng, n)])}"
+    h = rand_host(rng, host, 0.6)
     if pure:
         return rng.choice([f"at:{h}", f"esc:{h}"])
     k = rng.choice(["at", "esc", "redir", "bg", "auth"])
@@ -199,16 +238,33 @@ def rand_query(rng, quirk, pure):
             return "-"
         if r2 < 0.6:
             return "@"
-        return f"t{rng.randrange(NM)}:{segs_wire([rand_str(rng, quirk)])}"
+        if r2 < 0.7 and cur is not None:
+            return f"t{rand_host(rng, h, 0.7)}:{hx(str(cur))}"
+        return f"t{rand_host(rng, h, 0.7)}:{segs_wire([rand_str(rng, quirk)])}"
     return f"bg:{h},{f()},{f()}"
 
 
 def random_case(rng, quirk):
+    """a mostly valid case: the chain is steered by evaluating it on pathlib while it is generated"""
+    import pathimpl
     pure = rng.random() < 0.4
     host = 0 if pure else rng.choice([0, 0, 1, 2, 3, 4, 5])
-    args = [rand_arg(rng, quirk, False, pure) for _ in range(rng.choice([0, 1, 1, 2, 2, 3, 4]))]
-    chain = [rand_op(rng, quirk, pure) for _ in range(rng.choice([0, 1, 2, 3]))]
-    qs = [rand_query(rng, quirk, pure) for _ in range(rng.randint(1, 8))]
+    args = [rand_arg(rng, quirk, False, pure, host) for _ in range(rng.choice([0, 1, 1, 2, 2, 3, 4]))]
+    env = pathimpl.Env(True, [], 0)
+    try:
+        cur = env.mk(env.args(args_wire(args), None))
+    except Exception:
+        cur = None
+    chain = []
+    for _ in range(rng.choice([0, 1, 2, 3])):
+        op = rand_op(rng, quirk, pure, host, cur)
+        chain.append(op)
+        if cur is not None:
+            try:
+                cur = env.apply(cur, op)
+            except Exception:
+                cur = None
+    qs = [rand_query(rng, quirk, pure, host, cur) for _ in range(rng.randint(1, 8))]
     return (f"{'pure' if pure else 'tpath'} {MACHINES} {host} {args_wire(args)} "
             f"{';'.join(chain) if chain else '.'} {';'.join(qs)}")
 
